@@ -162,6 +162,95 @@ def build(item):
                 sym.check("bin_delta_0_1[%d]" % i, Or(cp.get_bin_hits(i) == before[i], cp.get_bin_hits(i) == before[i] + 1))
         return dict(harness=h, theory="bv", sig=sig, standins=e3.coverage_standins, max_paths=3000,
                     desc="wildcard_bin_array pats=%s nbins=%s" % (pats, nb))
+    if kind == "single_signed":
+        # the sampled field is signed: a negative sample matches through its two's-complement bit pattern
+        pats = [tuple(p) for p in item["pats"]]
+        w = item["width"]
+
+        def h(sym):
+            e3.reset_coverage_registry()
+            v = sym.int("v", -(1 << (w - 1)), (1 << (w - 1)) - 1)
+
+            @vsc.covergroup
+            class CG(object):
+                def __init__(self):
+                    self.with_sample(dict(a=vsc.int_t(w)))
+                    self.cp = vsc.coverpoint(self.a, bins={"w": vsc.wildcard_bin(*pats)})
+            cg = CG()
+            cp = cg.get_model().coverpoint_l[0]
+            cg.sample(v)
+            full = (1 << w) - 1
+            exp = Or(*[((v & full) & m) == (val & m) for val, m in pats])
+            sym.check("hit_iff_match_signed_sample", (cp.get_bin_hits(0) == 1) == exp)
+        return dict(harness=h, theory="bv", sig=sig, standins=e3.coverage_standins,
+                    desc="single wildcard bin %s on a signed %d-bit sample" % (pats, w))
+
+    if kind == "two_instances":
+        # the pattern is a constructor parameter: instances with different patterns are different types; the type-level bin of each
+        # counts exactly the samples of its own instances that agree with its own pattern
+        p1, p2 = [tuple(x) for x in item["pats"]]
+
+        def h(sym):
+            e3.reset_coverage_registry()
+            v1 = sym.int("v1", 0, (1 << NB) - 1)
+            v2 = sym.int("v2", 0, (1 << NB) - 1)
+
+            @vsc.covergroup
+            class CG(object):
+                def __init__(self, pat):
+                    self.with_sample(dict(a=vsc.bit_t(NB)))
+                    self.cp = vsc.coverpoint(self.a, bins={"w": vsc.wildcard_bin(pat)})
+            c1, c2 = CG(p1), CG(p2)
+            c1.sample(v1)
+            c2.sample(v2)
+            m1, m2 = c1.get_model(), c2.get_model()
+            same = ((p1[0] & p1[1]) == (p2[0] & p2[1])) and p1[1] == p2[1]
+            h1 = Ite((v1 & p1[1]) == (p1[0] & p1[1]), 1, 0)
+            h2 = Ite((v2 & p2[1]) == (p2[0] & p2[1]), 1, 0)
+            sym.check("inst1_hits", m1.coverpoint_l[0].get_bin_hits(0) == h1)
+            sym.check("inst2_hits", m2.coverpoint_l[0].get_bin_hits(0) == h2)
+            if same:
+                sym.check("same_pattern_one_type", m1.type_cg is m2.type_cg)
+                sym.check("type_hits_sum", m1.type_cg.coverpoint_l[0].get_bin_hits(0) == h1 + h2)
+            else:
+                sym.check("different_patterns_separate_types", m1.type_cg is not m2.type_cg)
+                sym.check("type1_hits", m1.type_cg.coverpoint_l[0].get_bin_hits(0) == h1)
+                sym.check("type2_hits", m2.type_cg.coverpoint_l[0].get_bin_hits(0) == h2)
+        return dict(harness=h, theory="bv", sig=sig, standins=e3.coverage_standins,
+                    desc="two instances parameterised by wildcard patterns %s / %s" % (p1, p2))
+
+    if kind == "shared_array":
+        # one wildcard_bin_array specification object used by two coverpoints (and by a second covergroup instance)
+        pat = item["pat"]
+        nb = item["nbins"]
+        val, m, n = ref_parse(pat)
+        vals = matching_values(val, m, n)
+        exp_bins = ref_partition(set(vals), nb)
+
+        def h(sym):
+            e3.reset_coverage_registry()
+            spec_obj = vsc.wildcard_bin_array([] if nb is None else [nb], pat)
+            va = sym.int("va", 0, (1 << (n + 1)) - 1)
+            vb = sym.int("vb", 0, (1 << (n + 1)) - 1)
+
+            @vsc.covergroup
+            class CG(object):
+                def __init__(self):
+                    self.with_sample(dict(a=vsc.bit_t(n + 1), b=vsc.bit_t(n + 1)))
+                    self.cp_a = vsc.coverpoint(self.a, bins={"w": spec_obj})
+                    self.cp_b = vsc.coverpoint(self.b, bins={"w": spec_obj})
+            c1 = CG()
+            c2 = CG()
+            c2.sample(va, vb)
+            for tag, cp, v in (("second_instance_cp_a:", c2.get_model().coverpoint_l[0], va), ("second_instance_cp_b:", c2.get_model().coverpoint_l[1], vb)):
+                sym.check(tag + "n_bins", cp.get_n_bins() == len(exp_bins))
+                for i in range(min(cp.get_n_bins(), len(exp_bins))):
+                    in_bin = Or(*[v == x for x in exp_bins[i]])
+                    sym.check(tag + "bin_hit_iff_member[%d]" % i, (cp.get_bin_hits(i) == 1) == in_bin)
+            for cp in c1.get_model().coverpoint_l:
+                sym.check("first_instance_n_bins", cp.get_n_bins() == len(exp_bins))
+        return dict(harness=h, theory="bv", sig=sig, standins=e3.coverage_standins, max_paths=3000,
+                    desc="shared wildcard_bin_array %s nbins=%s" % (pat, nb))
     raise Exception(kind)
 
 
@@ -268,6 +357,14 @@ def items_for(t, sd):
     for ps in multi:
         items.append(dict(kind="array", pats=ps, nbins=None))
         items.append(dict(kind="array", pats=ps, nbins=2))
+    # signed samples, parameterised instances, specification objects used more than once
+    for w, pats in ((8, [(0x80, 0x80)]), (8, [(0x0f, 0x0f)]), (4, [(0x8, 0xc), (0x1, 0x3)]), (6, [(0x20, 0x30)]), (8, [(0xff, 0xff)]), (5, [(0, 0x10)])):
+        items.append(dict(kind="single_signed", width=w, pats=pats))
+    for p1, p2 in (((0x80, 0xf0), (0x80, 0xff)), ((0x80, 0xf0), (0x80, 0xf0)), ((0x80, 0xfc), (0x80, 0xf3)), ((0x01, 0x01), (0x01, 0x03)), ((0x10, 0xf0), (0x20, 0xf0)),
+                   ((0x00, 0x0f), (0x00, 0xff))):
+        items.append(dict(kind="two_instances", pats=[p1, p2]))
+    for pat, nbc in (("0b1xx", 2), ("0b1xx", None), ("0bx1x0", 3), ("0b0xx1", 2), ("0x1x", 4)):
+        items.append(dict(kind="shared_array", pat=pat, nbins=nbc))
     return items
 
 
